@@ -282,11 +282,47 @@ func c26R4(c *engine.Ctx, do *ssa.Function, doSel *ssa.Select) {
 			}
 		}
 	}
+	// the drop may be issued by a method of the engine that Do calls with its
+	// request (dropCanceled(ctx, logger, req)): the call of that method is then
+	// the drop site, provided the method drops its request parameter exactly once
+	// on every path
+	var dropArg ssa.Value
+	if len(drops) == 0 {
+		for _, hc := range engine.Calls(do) {
+			h := hc.Common().StaticCallee()
+			if h == nil || len(h.Blocks) == 0 || h.Pkg != do.Pkg || len(h.Params) == 0 {
+				continue
+			}
+			var inner []ssa.CallInstruction
+			for _, call := range engine.Calls(h) {
+				cc := call.Common()
+				if cc.StaticCallee() == nil && !cc.IsInvoke() && engine.Describe(cc.Value) == "p:"+engine.ParamName(h.Params[0])+".drop" {
+					inner = append(inner, call)
+				}
+			}
+			if len(inner) != 1 || engine.InCycle(inner[0]) {
+				continue
+			}
+			skips := false
+			for _, x := range exits(h) {
+				if (engine.PathQuery{Fn: h, FromBlk: h.Blocks[0], Barrier: func(i ssa.Instruction) bool { return i == ssa.Instruction(inner[0]) }}).Reaches(x) {
+					skips = true
+				}
+			}
+			if a := argOfParam(inner[0].Common().Args[0], hc); a != nil && !skips {
+				drops = append(drops, hc)
+				dropArg = a
+			}
+		}
+	}
 	c.Check(len(drops) == 1, "C26.R4", "Do/one-drop-site", do.Pos(), "exactly one call of the drop handler expected in Do, found %d", len(drops))
 	if len(drops) != 1 || doSel == nil {
 		return
 	}
 	drop := drops[0]
+	if dropArg == nil {
+		dropArg = drop.Common().Args[0]
+	}
 	var ruCall *ssa.Call
 	for _, call := range engine.CallsTo(do, false, "(*rpc.Engine).retryUntilAck") {
 		ruCall, _ = call.(*ssa.Call)
@@ -306,7 +342,7 @@ func c26R4(c *engine.Ctx, do *ssa.Function, doSel *ssa.Select) {
 		}
 	}
 	n++
-	c.Check(descCell(drop.Common().Args[0]) == "p:req", "C26.R4", "Do/drop/argument", drop.Pos(), "the drop handler must receive the request of this call")
+	c.Check(descCell(dropArg) == "p:req", "C26.R4", "Do/drop/argument", drop.Pos(), "the drop handler must receive the request of this call")
 	c.Check(!engine.InCycle(drop), "C26.R4", "Do/drop/once", drop.Pos(), "the drop call must not lie on a cycle (exactly one drop)")
 	c.Check(engine.GuardedBy(drop, sentIs(true)), "C26.R4", "Do/drop/only-if-sent", drop.Pos(), "a request that was never sent must not be dropped")
 	var ctxBody *ssa.BasicBlock
